@@ -18,6 +18,9 @@ def sims(ctx):
                  gst=1000, chaos=600, drop=20, dup=20, run_ms=9000),
             dict(name="crash6", stakes=[1, 1, 1, 1, 1, 1], byz=[5], byz_mode="spam", crashed=[2],
                  crash_at=2500, seed=ctx.seed + 2, gst=3000, chaos=1200, drop=50, run_ms=8000),
+            # a lagging correct node (certificates without blocks for 7 s, late equivocated blocks, catch-up by repair)
+            dict(name="lag4", stakes=[2, 2, 2, 1], byz=[3], byz_mode="equivocate", seed=ctx.seed + 5, gst=500, chaos=300,
+                 drop=10, run_ms=12000, lag=(1, 1500, 8500)),
             # the same stake ratios at the top of the u64 range (total 1.75e19 < 2^64)
             dict(name="equiv4_big", stakes=[2, 2, 2, 1], stake_scale=25 * 10**17, byz=[3], byz_mode="equivocate",
                  seed=ctx.seed + 4, gst=1000, chaos=600, drop=20, dup=20, run_ms=7000),
